@@ -149,7 +149,7 @@ def default_scope(case_line):
 
 def run_corr(ctx, rep, profiles, fields, oracle=None, classify=None, timeout_ms=4000,
              ref_fields=None, scope=default_scope, known_quirks=None, derive=None, spec_flag="-ref", spec_name="Ref", ref_skip=None,
-             emitted=None, emitted_fields=None):
+             emitted=None, emitted_fields=None, api=None):
     """profiles: list of (profile name, n_quick, n_thorough).
     fields: observables on which the model (faithful quirks) and the implementation must agree.
     ref_fields: observables on which the implementation must agree with the specification Ref
@@ -302,6 +302,20 @@ def run_corr(ctx, rep, profiles, fields, oracle=None, classify=None, timeout_ms=
                     rep.violation("the parser emitted by the real front-end and builder for the grammar text differs on %s from the parser whose tables the harness lowered (= the model)" % f,
                                   {"case": by_id.get(cid), "field": f, "emitted": e, "tables": i, "ref": ref.get(cid),
                                    "grammar_text": open(os.path.join(corr.emit_dir(pretty), corr.group_id(cid) + ".peg")).read()}, found=found)
+        # (1c) the public entry functions: Parse / ParseReader / ParseFile must return what newParser + parse return
+        if api:
+            sample = [l for l in lines if "~" not in corr.case_id(l) and impl.get(corr.case_id(l), {}).get("out") not in corr.NONTERM][: ctx.q(*api)]
+            hosts_api = {k: v + " -api" for k, v in hosts.items()}
+            ap = corr.run_impl(ctx.sc, hosts_api, sample, timeout_ms)
+            dist["public_entry_functions:cases"] += len(ap)
+            for l in sample:
+                cid = corr.case_id(l)
+                a, i = ap.get(cid, {}), impl.get(cid, {})
+                if not a or a.get("out") in corr.NONTERM:
+                    continue
+                if not same_on(["out", "val", "errs"], a, i):
+                    rep.violation("Parse / ParseReader / ParseFile return something else than the parser they wrap (%s)" % first_diff(["out", "val", "errs"], a, i),
+                                  {"case": l, "public_function": a, "newParser_parse": i, "model": model.get(cid)}, found=True)
         # (3) property oracle on every case
         if oracle:
             for cid, l in by_id.items():
